@@ -88,8 +88,10 @@ impl OwnedHeaderMap {
         let mut next: *mut CHeaderMap = std::ptr::null_mut();
         // the library walks the list from the head; build it so that the walk yields `headers` in order
         for (n, v) in headers.iter().rev() {
-            let cn = CString::new(n.replace('\0', "")).unwrap();
-            let cv = CString::new(v.replace('\0', "")).unwrap();
+            // U+E000 in a generated string stands for one byte 0xE9 (Latin-1 e-acute): a C caller hands over bytes, not UTF-8
+            let bytes = |s: &str| -> Vec<u8> { s.replace('\0', "").replace('\u{e000}', "\u{1}").into_bytes().into_iter().map(|b| if b == 1 { 0xE9 } else { b }).collect() };
+            let cn = CString::new(bytes(n)).unwrap();
+            let cv = CString::new(bytes(v)).unwrap();
             let node = Box::into_raw(Box::new(CHeaderMap { name: cn.as_ptr(), value: cv.as_ptr(), next }));
             m.strings.push(cn);
             m.strings.push(cv);
